@@ -48,6 +48,7 @@ func runSeeds(t *testing.T, property, check string, st *Stats) {
 	}
 	for _, c := range cases {
 		c.Property = property
+		replayPrefix(c.Prefix)
 		st.Class("regression_cases")
 		if msg := safeRun(fn, c, st); msg != "" {
 			Fail(t, c, "regression case: %s", msg)
